@@ -66,6 +66,20 @@ pub fn gen_model(rng: &mut Rng, enc: Enc, max_notes: usize) -> Vec<NoteModel> {
                 let l = rng.usize_below(41);
                 NoteModel { n_type: [1u32, 3][rng.usize_below(2)], name: name.to_vec(), desc: rng.bytes(l) }
             }
+            4 => {
+                // vendor names that really occur (and the string literals of the crate's code), types from the exported
+                // NT_ constants, those the code mentions, small integers or anything
+                const VENDORS: [&[u8]; 10] = [b"CORE\0", b"LINUX\0", b"FreeBSD\0", b"NetBSD\0", b"OpenBSD\0", b"Go\0\0", b"stapsdt\0", b"Xen\0", b"Android\0", b"SuSE\0"];
+                let name: Vec<u8> = if !crate::abi_table::SRC_STRINGS.is_empty() && rng.chance(1, 3) {
+                    let mut v = crate::abi_table::SRC_STRINGS[rng.usize_below(crate::abi_table::SRC_STRINGS.len())].as_bytes().to_vec();
+                    v.push(0);
+                    v
+                } else {
+                    VENDORS[rng.usize_below(VENDORS.len())].to_vec()
+                };
+                let dl = rng.usize_below(41);
+                NoteModel { n_type: crate::abi_table::pick(rng, "NT_", &[1, 2, 3, 4, 5, 6], 32) as u32, name, desc: rng.bytes(dl) }
+            }
             _ => {
                 let nl = rng.usize_below(41);
                 let dl = rng.usize_below(41);
